@@ -80,6 +80,7 @@ MEMBER_WORDS = [
 PROTO_WORDS = ["drone", "rover", "basis", "common", "shared", "link", "navi", "telem", "ctrl", "pack"]
 AS_WORDS = ["ba", "cm", "sh", "lk", "nv", "tm", "ct", "pk", "qa", "qb"]
 
+ALL_WIDTHS = list(range(1, 65))
 INTERESTING_WIDTHS = [1, 2, 3, 7, 8, 9, 15, 16, 17, 23, 24, 25, 31, 32, 33, 40, 48, 56, 63, 64]
 
 
@@ -201,10 +202,10 @@ class _Builder:
         kind = d(st.sampled_from(["bool", "byte", "uint", "uint", "uint", "int", "int"]))
         if kind in ("bool", "byte"):
             return TBase(kind)
-        if d(st.integers(0, 3)) > 0:
+        if d(st.integers(0, 2)) > 0:
             bits = d(st.sampled_from(INTERESTING_WIDTHS))
         else:
-            bits = d(st.integers(1, 64))
+            bits = d(st.sampled_from(ALL_WIDTHS))  # (uniform: st.integers favours small values and the bounds)
         if kind == "int" and not self.feat.signed_nonstd:
             bits = d(st.sampled_from([8, 16, 32, 64]))
         return TBase(kind, bits)
